@@ -570,8 +570,21 @@ func (e *robustEnv) call(ep, template string, input interface{}) (outcome string
 		worst := "ok"
 
 		for _, d := range []document.Document{doc, {}, {"publicKey": []interface{}{e.cenv.keyJSON(CEnt{1, 1})}}} {
+			beforeDoc, beforePatch := digestJSON(d), digestJSON(p)
+
 			if _, err := doccomposer.New().ApplyPatches(d, []patch.Patch{p}); err != nil {
 				worst = "err"
+			}
+
+			// C12 (mutation mode): whatever the outcome, the caller's document and patch are as they were
+			if mutationMode() {
+				if digestJSON(d) != beforeDoc {
+					return "mutated: ApplyPatches changed the document it was given"
+				}
+
+				if digestJSON(p) != beforePatch {
+					return "mutated: ApplyPatches changed the patch it was given"
+				}
 			}
 		}
 
@@ -582,7 +595,20 @@ func (e *robustEnv) call(ep, template string, input interface{}) (outcome string
 			rm = &protocol.ResolutionModel{}
 		}
 
-		_, err := e.applier.Apply(&operation.AnchoredOperation{Type: opType, UniqueSuffix: testSuffix, OperationRequest: raw, TransactionTime: 1}, rm)
+		op := &operation.AnchoredOperation{Type: opType, UniqueSuffix: testSuffix, OperationRequest: raw, TransactionTime: 1}
+		beforeOp, beforeRM := digestJSON(op), digestJSON(rm)
+
+		_, err := e.applier.Apply(op, rm)
+
+		if mutationMode() {
+			if digestJSON(op) != beforeOp {
+				return "mutated: Apply changed the anchored operation it was given"
+			}
+
+			if digestJSON(rm) != beforeRM {
+				return "mutated: Apply changed the previous resolution model"
+			}
+		}
 
 		return res(err)
 	case "TransformDocument":
@@ -861,6 +887,10 @@ func robustReplay(args []string) {
 			}
 		}
 
+		if eps := fl.str("eps", ""); eps != "" && !strings.Contains(","+eps+",", ","+p.Ep+",") {
+			return
+		}
+
 		plans = append(plans, p)
 	})
 
@@ -882,6 +912,12 @@ func robustReplay(args []string) {
 		}
 
 		kind := strings.SplitN(r.outcome, ":", 2)[0]
+
+		// in mutation mode (C12) only modified inputs count: panics and crashes are C19's business
+		if mutationMode() != (kind == "mutated") {
+			outcomes["other:"+kind]++
+			continue
+		}
 		outcomes[kind]++
 		b, _ := json.Marshal(&r.plan)
 		col.report(mismatch{Kind: kind, Key: kind + ":" + r.plan.id(), Case: r.plan, Detail: r.outcome, Expected: "ok or err",
@@ -896,6 +932,9 @@ func robustReplay(args []string) {
 	col.sum.Extra["outcomes"] = outcomes
 	col.finish()
 }
+
+// mutationMode: the calls also compare their inputs before and after (C12 over the hostile input space).
+func mutationMode() bool { return os.Getenv("VERIF_ROBUST_MUTATION") == "1" }
 
 func truncate(s string, n int) string {
 	if len(s) > n {
